@@ -10,6 +10,11 @@
 use super::*;
 use crate::core_lib::iterator::adaptors::{Chain, Enumerate, Reversed, Skip, Step, Take, Zip};
 
+// error-message construction is not the subject
+fn stub_format(_args: std::fmt::Arguments<'_>) -> String {
+    String::new()
+}
+
 fn src(data: &[u8]) -> KIterator {
     KIterator::new(ByteIterator::new(Ptr::from(data)))
 }
@@ -216,4 +221,32 @@ fn c13_adaptor_skip() {
     assert!(num(s.next()) == Some(a[1] as i64), "C13.skip: the first element after the skipped ones");
     assert!(num(s.next()) == Some(a[2] as i64), "C13.skip: then in order");
     std::mem::forget(s);
+}
+
+// @props C13 C06
+// @fns Cycle::new over a range source (RangeIterator::size_hint, KRange::size)
+// @assume std::fmt::format stubbed (the unreachable "unbounded range" error message)
+// @bound an arbitrary bounded range (all i64 bounds): constructing the adaptor never panics (it used to reserve its cache from the unbounded size hint: capacity overflow, F20)
+// @kani --no-memory-safety-checks --no-assertion-reach-checks
+// @timeout 900
+// @mem 8
+#[kani::proof]
+#[kani::unwind(3)]
+#[kani::stub(std::fmt::format, stub_format)]
+fn c13_adaptor_cycle_new() {
+    use crate::core_lib::iterator::adaptors::Cycle;
+    let start: i64 = kani::any();
+    let end: i64 = kani::any();
+    let inclusive: bool = kani::any();
+    let range = KRange::new(Some(start), Some((end, inclusive)));
+    let it = match RangeIterator::new(range) {
+        Ok(it) => KIterator::new(it),
+        Err(e) => {
+            std::mem::forget(e);
+            return;
+        }
+    };
+    let c = Cycle::new(it);
+    kani::cover!((end as i128 - start as i128) > (1i128 << 60), "a source with more than 2^60 elements");
+    std::mem::forget(c);
 }
